@@ -311,3 +311,54 @@ func SearchThenBuildGood(x, gain float64) float64 {
 	}
 	return amplify(best, gain)
 }
+
+// First panics on the empty tree (a documented partial method).
+// clean:NILRECV
+func (t *tree) First() float64 {
+	if t == nil {
+		panic("empty tree")
+	}
+	return t.V
+}
+
+// clean:NILRECV partial on every path, like the method it relies on.
+func (t *tree) FirstTwice() float64 {
+	return 2 * t.First()
+}
+
+// want:NILRECV copes with nil for n != 1 and panics for n == 1.
+func (t *tree) Take(n int) []float64 {
+	if n == 1 {
+		return []float64{t.First()}
+	}
+	if t == nil {
+		return nil
+	}
+	return []float64{t.V, t.V}
+}
+
+type grid struct{ Xs, Ys, Zs []float64 }
+
+func cellOf(values []float64, v float64) int {
+	for i, x := range values {
+		if x > v {
+			return i
+		}
+	}
+	return len(values)
+}
+
+// want:AXISCALL the z query searches the y values.
+func (g *grid) CellBad(c model3d.Coord3D) [3]int {
+	return [3]int{cellOf(g.Xs, c.X), cellOf(g.Ys, c.Y), cellOf(g.Ys, c.Z)}
+}
+
+// clean:AXISCALL
+func (g *grid) CellGood(c model3d.Coord3D) [3]int {
+	return [3]int{cellOf(g.Xs, c.X), cellOf(g.Ys, c.Y), cellOf(g.Zs, c.Z)}
+}
+
+// silent:AXISCALL a constructor takes one argument per axis.
+func Swizzle(c model3d.Coord3D) model3d.Coord3D {
+	return model3d.XYZ(c.Y, c.Z, c.X)
+}
